@@ -64,6 +64,9 @@ def park_is_durable(kind: int, exists: bool, status_idx: int, attempt: int, fail
         tr0 = ops.run_callback_create(rec)
         tr = ops.run_callback_result(tr0.state, "cb")
     if tr.kind != "suspend":
+        if kind == 2:
+            # a wait that is absent or still running must park the execution (it can neither return nor fail)
+            h.check(tr.kind == "ret" and exists and WAIT_STATUSES[status_idx] is ST.SUCCEEDED, "a wait that has not completed must suspend, not return or raise")
         h.end()
         return
     h.reach("suspended")
